@@ -13,33 +13,60 @@ IMPL_SHARDS = 6
 PER_SHARD = 4
 KERNEL_SAMPLE = 12
 
-_CHAIN = ("(forall j, j < n -> port_served s j = true) /\\ "
+_SUCC = "exists y, nth_error (insts s) (S i) = Some y /\\ all_bnd n y"
+_ONLY = ("S i = length (insts s) \\/ (S (S i) = length (insts s) /\\ exists y, nth_error (insts s) (S i) = Some y /\\ "
+         "i_pc y <> PRunning)")
+_DRAINED = "all_done (i_sd x) = true /\\ forallb (fun l => negb (l_bound l)) (ls (i_sd x)) = true"
+_DONE = "completed (i_sd x) = true /\\ forallb (fun w => w) (i_lw x) = true"
+_CHAIN = ("(forall j, (j < n)%nat -> port_served s j = true) /\\ "
           "(forall i x, nth_error (insts s) i = Some x -> "
-          "(forall j, closed x j -> exists y, nth_error (insts s) (S i) = Some y /\\ all_bnd n y) /\\ "
-          "(finished (i_sd x) = true -> all_done (i_sd x) = true /\\ forallb (fun l => negb (l_bound l)) (ls (i_sd x)) = true) /\\ "
-          "(i_recv x = true -> hquiescent hrepaired s -> completed (i_sd x) = true)) /\\ "
-          "(forall i, serves s i = true -> S i = length (insts s) \\/ "
-          "(S (S i) = length (insts s) /\\ exists y, nth_error (insts s) (S i) = Some y /\\ i_pc y <> PRunning))")
+          "((i_msg x || i_recv x) = true -> " + _SUCC + ") /\\ "
+          "(forall j, closed x j -> " + _SUCC + ") /\\ "
+          "(finished (i_sd x) = true -> " + _DRAINED + ") /\\ "
+          "(forall c, (k_after (kget c (i_ka x)) <= 1)%nat) /\\ "
+          "(i_recv x = true -> hquiescent hrepaired s -> " + _DONE + ")) /\\ "
+          "(forall i, serves s i = true -> " + _ONLY + ") /\\ "
+          "(hquiescent hrepaired s -> serves s (pred (length (insts s))) = true) /\\ "
+          "(forall k lb s', serves s k = true -> S k = length (insts s) -> hstep hrepaired s lb = Some s' -> serves s' k = true)")
 
 THEOREMS = [
     ("always_bound",
      "forall (n : nat) (s : hstate) (j : nat), hreachable hrepaired n s -> (j < n)%nat -> port_served s j = true"),
+    ("told_after_bound",
+     "forall (n : nat) (s : hstate) (i : nat) (x : inst), hreachable hrepaired n s -> nth_error (insts s) i = Some x -> "
+     "(i_msg x || i_recv x) = true -> " + _SUCC),
     ("successor_binds_first",
      "forall (n : nat) (s : hstate) (i : nat) (x : inst) (j : nat), hreachable hrepaired n s -> "
-     "nth_error (insts s) i = Some x -> closed x j -> exists y, nth_error (insts s) (S i) = Some y /\\ all_bnd n y"),
+     "nth_error (insts s) i = Some x -> closed x j -> " + _SUCC),
     ("handover_drains",
      "forall (n : nat) (s : hstate) (i : nat) (x : inst), hreachable hrepaired n s -> nth_error (insts s) i = Some x -> "
-     "finished (i_sd x) = true -> all_done (i_sd x) = true /\\ forallb (fun l => negb (l_bound l)) (ls (i_sd x)) = true"),
+     "finished (i_sd x) = true -> " + _DRAINED),
+    ("keepalive_one_more",
+     "forall (n : nat) (s : hstate) (i : nat) (x : inst) (c : nat), hreachable hrepaired n s -> nth_error (insts s) i = Some x -> "
+     "(k_after (kget c (i_ka x)) <= 1)%nat"),
     ("handover_no_hang",
      "forall (n : nat) (s : hstate) (i : nat) (x : inst), hreachable hrepaired n s -> nth_error (insts s) i = Some x -> "
-     "i_recv x = true -> hquiescent hrepaired s -> completed (i_sd x) = true"),
+     "i_recv x = true -> hquiescent hrepaired s -> " + _DONE),
+    ("late_wait_resolves",
+     "forall (v : hvariant) (s : hstate) (i : nat) (x : inst) (w : nat), nth_error (insts s) i = Some x -> finished (i_sd x) = true -> "
+     "nth_error (i_lw x) w = Some false -> exists s', hstep v s (HWaitPoll i w) = Some s' /\\ "
+     "exists x', nth_error (insts s') i = Some x' /\\ nth_error (i_lw x') w = Some true"),
     ("ctl_successor_only",
-     "forall (n : nat) (s : hstate) (i : nat), hreachable hrepaired n s -> serves s i = true -> "
-     "S i = length (insts s) \\/ (S (S i) = length (insts s) /\\ exists y, nth_error (insts s) (S i) = Some y /\\ i_pc y <> PRunning)"),
-    ("chain", "forall (n : nat) (s : hstate), hreachable hrepaired n s -> (" + _CHAIN.replace("j < n", "(j < n)%nat") + ")"),
+     "forall (n : nat) (s : hstate) (i : nat), hreachable hrepaired n s -> serves s i = true -> " + _ONLY),
+    ("ctl_successor_answers",
+     "forall (n : nat) (s : hstate), hreachable hrepaired n s -> hquiescent hrepaired s -> serves s (pred (length (insts s))) = true"),
+    ("path_stable",
+     "forall (n : nat) (s : hstate) (k : nat) (lb : hlabel) (s' : hstate), hreachable hrepaired n s -> serves s k = true -> "
+     "S k = length (insts s) -> hstep hrepaired s lb = Some s' -> serves s' k = true"),
+    ("chain", "forall (n : nat) (s : hstate), hreachable hrepaired n s -> (" + _CHAIN + ")"),
     ("always_bound_today_refuted",
      "exists s, hreachable htoday 1 s /\\ port_served s 0 = false /\\ exists x y, nth_error (insts s) 0 = Some x /\\ closed x 0 /\\ "
-     "nth_error (insts s) 1 = Some y /\\ nth 0 (i_bnd y) false = false"),
+     "nth_error (insts s) 1 = Some y /\\ nth 0 (i_bnd y) BNone = BNone"),
+    ("eager_start_refuted",
+     "exists s, hreachable hbound 1 s /\\ hquiescentb hbound s = true /\\ length (insts s) = 3%nat /\\ serves s 1 = true /\\ "
+     "serves s 2 = false /\\ exists x y, nth_error (insts s) 1 = Some x /\\ nth_error (insts s) 2 = Some y /\\ "
+     "listening x 0 = true /\\ listening y 0 = true /\\ i_pc x = PRunning /\\ i_pc y = PRunning /\\ i_msg x = false /\\ "
+     "i_recv x = false /\\ finished (i_sd x) = false"),
 ]
 
 # ---- program-counter codes of Model/Shutdown.v and Model/Handover.v (x_lpc, x_cpc, x_spc, x_kpc, x_ipc, x_tpc) ----
@@ -93,7 +120,6 @@ class Mapper:
         self.src = []       # index of the raw event behind each entry
         self.main_tid = {}
         self.mobs = {}      # instance -> program counter of execute() after its last step
-        self.mpc = {}       # instance -> number of spawn steps of execute() done (today's code: not observable)
         self.lst = {}       # (inst, tid) -> listener index
         self.taken = set()  # (inst, listener index) that has its accept task
         self.lpc = {}       # (inst, j) -> mirror pc
@@ -104,13 +130,16 @@ class Mapper:
         self.pending = []   # (inst, peer, index among the instance's connection tasks): counted, task not yet seen
         self.nconn = {}
         self.conn_tid = {}  # (inst, tid) -> index among the instance's connection tasks
-        self.cpc = {}       # (inst, c) -> mirror pc of the connection task
         self.fin = set()
-        self.started = set()
-        self.up0 = False
         self.accepted = []  # (peer port, listener index, time of the accept hook, instance)
-        self.nbound = {}    # instance -> sockets created so far by its execute()
+        self.nlisten = {}   # instance -> sockets bound so far by its execute()
+        self.nbound = {}    # instance -> sockets put into listening state so far by its execute()
         self.unknown = []
+        self.uncreated = {}  # (inst, listener j) -> connection index counted by the accept loop, its task not yet in the model
+        self.deferred = {}   # (inst, c) -> entries held back until the model has the task
+        self.kst = {}        # (inst, c) -> mirror state of the request loop: 0 waiting, 1 serving, 2 left
+        self.nwait = {}      # instance -> late waiters so far
+        self.widx = {}       # (inst, kind) -> index of the late waiter
 
     def emit(self, n, label, obs):
         self.out.append((label, obs))
@@ -118,11 +147,13 @@ class Mapper:
         if label[1][0] == ("N", 1):            # HMain: remember execute()'s program counter (reported with HBind)
             self.mobs[label[1][1][1]] = obs
 
-    def ensure_spawned(self, n, i, upto):
-        """today's code has no hook at the spawn of an accept task: the steps are taken when something shows they happened"""
-        while self.mpc.get(i, 0) < upto:
-            self.mpc[i] = self.mpc.get(i, 0) + 1
-            self.emit(n, xl(xn(1), xn(i)), self.mpc[i])
+    def conn_entry(self, n, i, c, label, obs):
+        """an entry of connection task c: held back while the accept loop has not reached its next `al.top` (only there does the
+        model get the task; the points `co.start` and `hx.req` do not wait for the accept loop's segment to end)"""
+        if (i, c) in self.deferred:
+            self.deferred[(i, c)].append((n, label, obs))
+        else:
+            self.emit(n, label, obs)
 
     def listener_of(self, i, tid, port):
         if (i, tid) in self.lst:
@@ -135,8 +166,12 @@ class Mapper:
                 return j
         return None
 
+    def finished(self, n, i):
+        if i not in self.fin:
+            self.fin.add(i)
+            self.emit(n, hsd(i, K_STEP, 0), 4)
+
     def run(self, events):
-        nl = self.nl
         for inst, tid, name, val, _t in events:
             if name == "ctl.send" and inst not in self.main_tid:
                 self.main_tid[inst] = tid
@@ -150,24 +185,22 @@ class Mapper:
                 if val >= 1:
                     self.emit(n, xl(xn(0)), val + 1)
                 continue
-            if name == "h.serves":
-                if val == 0:
-                    self.up0 = True
-                else:
-                    if val not in self.started:
-                        self.started.add(val)
-                        self.emit(n, xl(xn(1), xn(val)), 102)
-                    self.emit(n, xl(xn(3), xn(val)), 2)
-                continue
             if name == "h.waited":
-                if val not in self.fin:
-                    self.fin.add(val)
-                    self.emit(n, hsd(val, K_STEP, 0), 4)
+                self.finished(n, val)
                 self.emit(n, hsd(val, W_STEP, 0), 1)
                 continue
-            if name in ("h.wnew", "h.wres"):
+            if name == "h.wnew":
+                i, kind = val // 4, val % 4
+                self.widx[(i, kind)] = self.nwait.get(i, 0)
+                self.nwait[i] = self.nwait.get(i, 0) + 1
+                self.emit(n, xl(xn(11), xn(i)), self.nwait[i])
                 continue
-            if name in ("h.executed", "ex.bind", "sh.enter", "co.start", "ct.start"):
+            if name == "h.wres":
+                i, kind = val // 4, val % 4
+                self.finished(n, i)
+                self.emit(n, xl(xn(12), xn(i), xn(self.widx.get((i, kind), 99))), 1)
+                continue
+            if name in ("h.serves", "h.executed", "ex.bind", "sh.enter", "co.start", "ct.start", "hx.resp"):
                 if name == "co.start":
                     # the task of the oldest not yet started connection with this peer port (the same client port may be
                     # connected to two ports at once; two such tasks are in the same state, so either choice is a trace)
@@ -177,42 +210,50 @@ class Mapper:
                             del self.pending[m]
                             break
                 continue
-            if name in ("hx.listen", "hx.req", "hx.resp", "hx.cont"):
-                continue
             if i == 99:
                 continue
             # ---- execute() of a successor (instance 0 is the model's initial instance: already up) ----
+            if name == "hx.listen":
+                if i == 0:
+                    continue
+                j = self.nlisten.get(i, 0)
+                self.nlisten[i] = j + 1
+                if tid == self.main_tid.get(i):
+                    self.emit(n, xl(xn(1), xn(i)), 200 + j)
+                else:
+                    self.emit(n, xl(xn(2), xn(i), xn(j)), self.mobs.get(i, 0))
+                continue
             if name == "ex.bound":
                 if i == 0:
                     continue
                 j = self.nbound.get(i, 0)
                 self.nbound[i] = j + 1
                 if tid == self.main_tid.get(i):
-                    self.mpc[i] = j + 1
                     self.emit(n, xl(xn(1), xn(i)), j + 1)
                 else:
-                    self.ensure_spawned(n, i, j + 1)
                     self.emit(n, xl(xn(2), xn(i), xn(j)), self.mobs.get(i, 0))
                 continue
             if name == "ctl.send":
                 if i == 0:
                     continue
-                self.ensure_spawned(n, i, nl)
-                self.mpc[i] = 1000
                 self.emit(n, xl(xn(1), xn(i)), 100 if got.get(i) != 0 else 101)
                 continue
             if name == "ctl.got":
                 if i == 0:
                     continue
-                if val != 0:
+                if val == 1:
                     self.emit(n, xl(xn(1), xn(i)), 101)
+                elif val != 0:
+                    # Response::Error or a reply that is not `ok`: ctl::listen returns without a control socket — not a step of the model
+                    self.unknown.append(("ctl.got %d" % val, i))
+                    self.emit(n, xl(xn(9), xn(i)), 0)
                 continue
             if name == "ctl.started":
                 if i == 0:
                     continue
-                if i not in self.started:
-                    self.started.add(i)
-                    self.emit(n, xl(xn(1), xn(i)), 102)
+                # start_at has returned: the file at the path was removed, the path is bound
+                self.emit(n, xl(xn(1), xn(i)), 103)
+                self.emit(n, xl(xn(1), xn(i)), 102)
                 continue
             if name == "ctl.recv":
                 self.emit(n, xl(xn(4), xn(i)), 2)
@@ -246,6 +287,10 @@ class Mapper:
                 k = (i, j)
                 if self.lpc.get(k) == LCOUNTED:
                     self.emit(n, hsd(i, L_STEP, j), LTOP)
+                    c = self.uncreated.pop(k, None)
+                    if c is not None:
+                        for e in self.deferred.pop((i, c), []):
+                            self.emit(*e)
                 self.lpc[k] = LTOP
                 continue
             if (i, tid) in self.lst and (name.startswith("ap.") or name.startswith("al.") or name.startswith("rm.")):
@@ -271,8 +316,11 @@ class Mapper:
                     if name == "al.counted":
                         # the task is spawned, and gets its index among the instance's connection tasks, in the segment that
                         # ends at the next al.top; no other accept loop can be between its al.counted and al.top
-                        self.pending.append((i, val, self.nconn.get(i, 0)))
-                        self.nconn[i] = self.nconn.get(i, 0) + 1
+                        c = self.nconn.get(i, 0)
+                        self.pending.append((i, val, c))
+                        self.nconn[i] = c + 1
+                        self.uncreated[k] = c
+                        self.deferred[(i, c)] = []
                     self.emit(n, hsd(i, L_STEP, j), new)
                     self.lpc[k] = new
                 elif name == "al.got":
@@ -292,11 +340,24 @@ class Mapper:
                     self.emit(n, hsd(i, L_STEP, j), new)
                     self.lpc[k] = new
                 continue
-            # ---- connection tasks ----
+            # ---- connection tasks: the request loop, then the release of the connection's count ----
+            if (i, tid) in self.conn_tid and name in ("hx.req", "hx.cont"):
+                c = self.conn_tid[(i, tid)]
+                if name == "hx.req":
+                    self.kst[(i, c)] = 1
+                    self.conn_entry(n, i, c, xl(xn(7), xn(i), xn(c)), 1)
+                else:
+                    self.kst[(i, c)] = 0 if val == 1 else 2
+                    self.conn_entry(n, i, c, xl(xn(8), xn(i), xn(c)), self.kst[(i, c)])
+                continue
             if (i, tid) in self.conn_tid and name.startswith("rm."):
                 c = self.conn_tid[(i, tid)]
+                if name == "rm.enter" and self.kst.get((i, c), 0) != 2:
+                    # the loop was left without the re-check: the client closed, no request head within 5 s, an I/O error
+                    self.kst[(i, c)] = 2
+                    self.conn_entry(n, i, c, xl(xn(10), xn(i), xn(c)), 2)
                 new = {"rm.enter": 3, "rm.dec": 4, "rm.flag": 5, "rm.exit": 6}[name]
-                self.emit(n, hsd(i, C_STEP, c), new)
+                self.conn_entry(n, i, c, hsd(i, C_STEP, c), new)
                 continue
             # anything else: a hook point the mapper does not know is a label the model does not have
             self.unknown.append((name, i))
@@ -311,7 +372,7 @@ def model_check(nl, entries):
     global _DRV
     if _DRV is None:
         _DRV = kv.build_model_driver()
-    x = xl(xn(1), xn(nl), xlist([xl(lb, xn(o)) for lb, o in entries]))
+    x = xl(xn(2), xn(nl), xlist([xl(lb, xn(o)) for lb, o in entries]))
     out = kv._run_sharded(_DRV, ["t handover.check " + kv.xtext(x)], shards=1)
     try:
         r = py(kv.xparse(out["t"]))
@@ -442,7 +503,8 @@ def summary(c, an):
     waits = r["waited"][:k] if len(r["waited"]) >= k else r["waited"]
     ids = [p[P_ID] for p in r["probes"] if p[P_OUT] == 0]
     who = (ids[-1] + 1) if ids else 0
-    return "(L (N %d) (L%s) (N %d))" % (ok, "".join(" (N %d)" % w for w in waits), who)
+    late = [1 if all(any(w[0] == h and w[1] == kind and w[3] for w in r["waiters"]) for kind in (1, 2)) else 0 for h in range(k)]
+    return "(L (N %d) (L%s) (N %d) (L%s))" % (ok, "".join(" (N %d)" % w for w in waits), who, "".join(" (N %d)" % w for w in late))
 
 
 def compare(c, i, m):
@@ -453,7 +515,7 @@ def compare(c, i, m):
         return False
     try:
         mm = py(kv.xparse(m))
-        ms = "(L (N %d) (L%s) (N %d))" % (mm[0], "".join(" (N %d)" % w for w in mm[1]), mm[2])
+        ms = "(L (N %d) (L%s) (N %d) (L%s))" % (mm[0], "".join(" (N %d)" % w for w in mm[1]), mm[2], "".join(" (N %d)" % w for w in mm[5]))
     except Exception:
         return False
     return summary(c, an) == ms and mm[3] == 1 and all(mm[4])
